@@ -29,6 +29,28 @@ fn main() {
         println!("{{\"done\": \"{}\"}}", mode);
         return;
     }
+    if mode == "c12_msm" {
+        // msm_parallel / msm_best against the naive sum, in rayon pools of several sizes
+        use group::{Curve, Group};
+        use midnight_curves::{msm::{msm_best, msm_parallel}, G1Projective};
+        let mut fails = 0;
+        for threads in [1usize, 2, 3, 5, 8, 16] {
+            for len in 1..=48usize {
+                let bases: Vec<_> = (0..len).map(|i| (G1Projective::generator() * Fq::from(7 + i as u64)).to_affine()).collect();
+                let coeffs: Vec<Fq> = (0..len).map(|i| Fq::from(1000 + 13 * i as u64)).collect();
+                let want = bases.iter().zip(coeffs.iter()).fold(G1Projective::identity(), |a, (b, c)| a + *b * *c);
+                let (gp, gb) = in_pool(threads, || (msm_parallel(&coeffs, &bases), msm_best(&coeffs, &bases)));
+                if gp != want || gb != want {
+                    if fails < 4 {
+                        report("msm_parallel", format!("msm_parallel / msm_best on {len} BLS12-381 G1 terms in a pool of {threads} threads"), "differs from the naive sum".into(), "the naive sum");
+                    }
+                    fails += 1;
+                }
+            }
+        }
+        println!("{{\"done\": \"{}\"}}", mode);
+        return;
+    }
     if mode == "c16_vk" {
         vk::run(&|k, case, got, want| report(k, case, got, want));
         println!("{{\"done\": \"{}\"}}", mode);
